@@ -23,9 +23,11 @@ GEOMS = {
  # degenerate
  'move_only': 'M1,1', 'moves': 'M1,1 M2,2', 'empty': '', 'line': 'M0,0 L5,5', 'collinear': 'M0,0 L2,2 L4,4 Z', 'point': 'M1,1 L1,1 Z',
  'tiny_sq': 'M0,0 L0.02,0 L0.02,0.02 L0,0.02 Z', 'tiny_tri': 'M1,1 L1.03,1 L1,1.02 Z', 'dot': 'M5,5 z', 'dots': 'M5,5 Z M1,1 z', 'dot_then_line': 'M5,5 z M0,0 L3,0',
+ # no command letter other than the moveto: the following pairs are implicit linetos (what polyline/polygon points become)
+ 'implicit_sq': 'M0,0 4,0 4,4 0,4', 'implicit_rel': 'm1,1 4,0 0,3', 'implicit_exp': 'M0 0 4e0 0 2 .3e1', 'implicit_line': 'M0,0 5,5', 'implicit_two': 'M0,0 2,0 2,2 M3,3 5,3 5,5',
  'cancel_evenodd': 'M0,0 L4,0 L4,4 L0,4 Z M0,0 L4,0 L4,4 L0,4 Z', 'zero_rect': 'M0,0 L4,0 L4,0 L0,0 Z', 'close_then_line': 'M0,5 h1 z L1,1 L2,2 z',
 }
-DEGENERATE = {'move_only', 'moves', 'empty', 'line', 'collinear', 'point', 'zero_rect'}
+DEGENERATE = {'move_only', 'moves', 'empty', 'line', 'collinear', 'point', 'zero_rect', 'implicit_line'}
 
 FIELDS = ['id', 'clip_path', 'clip_rule', 'fill', 'fill_opacity', 'fill_rule', 'stroke', 'stroke_width', 'stroke_linecap', 'stroke_linejoin',
           'stroke_miterlimit', 'stroke_dasharray', 'stroke_dashoffset', 'stroke_opacity', 'opacity', 'transform', 'style', 'display', 'd']
@@ -193,6 +195,18 @@ def search(ctx, broken, disagreements):
             if v and (v[0], g) not in seen:
                 seen.add((v[0], g))
                 found.append({'law': v[0], 'input': {'d': d, 'attrs': jsonable(attrs), 'op': 'remove_empty_subpaths'}, 'expected_by_spec': jsonable(v[1]), 'observed': jsonable(v[2])})
+    # history: the verdict on a visible shape does not depend on a hidden shape with the same outline having been processed before
+    for g, d in GEOMS.items():
+        for hid in ({'opacity': 0.0}, {'display': 'none'}, {'fill_opacity': 0.0}, {'style': [('display', 'none')]}):
+            for vis in ({}, {'fill_rule': 'evenodd'}):
+                n += 1
+                try: impl_shape(hid, d).remove_empty_subpaths(); impl_shape(hid, d).might_paint()
+                except ValueError: continue
+                v = judge_subpaths(d, vis) or judge(vis, d)
+                if v and (v[0], g, 'h') not in seen:
+                    seen.add((v[0], g, 'h'))
+                    found.append({'law': v[0] + ' (after a hidden shape with the same outline was processed)', 'input': {'d': d, 'attrs': jsonable(vis), 'before': jsonable(hid),
+                                  'op': 'remove_empty_subpaths'}, 'expected_by_spec': jsonable(v[1]), 'observed': jsonable(v[2])})
     return found, {'evaluations': n}
 
 def matches_known(v, entry):
@@ -203,6 +217,14 @@ def matches_known(v, entry):
     return False
 
 def replay(ctx, w):
+    if w.get('before') is not None:
+        hid = unjson(w['before'])
+        if 'style' in hid: hid['style'] = [tuple(x) for x in hid['style']]
+        try: impl_shape(hid, w['d']).remove_empty_subpaths(); impl_shape(hid, w['d']).might_paint()
+        except ValueError: pass
+        vis = unjson(w.get('attrs', {}))
+        v = judge_subpaths(w['d'], vis) or judge(vis, w['d'])
+        return {'fails': v is not None, 'detail': jsonable(v)}
     attrs = unjson(w.get('attrs', {}))
     if 'style' in attrs: attrs['style'] = [tuple(x) for x in attrs['style']]
     v = judge_subpaths(w['d'], attrs) if w.get('op') == 'remove_empty_subpaths' else judge(attrs, w['d'])
